@@ -214,7 +214,7 @@ func run() int {
 					anyFn = sp.Func("init")
 				}
 			}
-			ex := &Exec{prog: l.prog, db: db, fset: l.prog.Fset, maxPaths: 10, loopCache: map[*ssa.Function]*LoopInfo{}, usedUnknown: map[string]bool{}, usedContracts: map[string]bool{}, prop: prop}
+			ex := &Exec{prog: l.prog, db: db, fset: l.prog.Fset, maxPaths: 10, loopCache: map[*ssa.Function]*LoopInfo{}, usedUnknown: map[string]bool{}, usedContracts: map[string]bool{}, prop: prop, siteOrd: map[*ssa.Function]map[ssa.Instruction]int{}}
 			curLemmaKey = k
 			ex.verifySpecLemma(c, tpkg, anyFn)
 			curLemmaKey = ""
@@ -232,7 +232,7 @@ func run() int {
 			rep.Missing = append(rep.Missing, MissingFn{Key: k, Props: c.propList(), File: c.File})
 			continue
 		}
-		ex := &Exec{prog: l.prog, db: db, fset: l.prog.Fset, maxPaths: 4000, loopCache: map[*ssa.Function]*LoopInfo{}, usedUnknown: map[string]bool{}, usedContracts: map[string]bool{}, prop: prop}
+		ex := &Exec{prog: l.prog, db: db, fset: l.prog.Fset, maxPaths: 4000, loopCache: map[*ssa.Function]*LoopInfo{}, usedUnknown: map[string]bool{}, usedContracts: map[string]bool{}, prop: prop, siteOrd: map[*ssa.Function]map[ssa.Instruction]int{}}
 		if c.PathCap > 0 {
 			ex.maxPaths = c.PathCap
 		}
